@@ -16,6 +16,7 @@
 import LzModel.Generated.CodeBUPParse
 import LzProofs.GenHashPropsDict2
 import LzProofs.GenParseShared
+import LzProofs.GenCallByName
 
 set_option linter.unusedSimpArgs false
 set_option linter.unusedVariables false
@@ -180,7 +181,7 @@ theorem loop3_eq (grow : Nat → Nat → Nat) (lcp : Slice → Slice → Int) (b
       BCtx s.bucketDictionary.bucketHash _p → BOK s.bucketDictionary.bucketHash →
       ∃ jj g', BOK g' ∧ SameCfg s.bucketDictionary.bucketHash g' ∧
         ProbeW.binsertRangeW (ofBucket s.bucketDictionary.bucketHash) _p.data j n = some (ofBucket g') ∧
-        bucketParser_Parse_loop_3 grow lcp b x _p h fuel a s =
+        (ghead% bucketParser_Parse_loop_3 [grow := grow, lcp := lcp, b := b, x := x, _p := _p, h := h]) fuel a s =
           Res.ok (jj, { s with bucketDictionary := { s.bucketDictionary with bucketHash := g' } }) := by
   intro n
   induction n with
@@ -319,6 +320,11 @@ theorem bupScanW_cons (bk : BucketT) (p : List Byte) (i ws v base s : Nat) (rest
   rw [ProbeW.bupScanW]
   simp only [Option.bind_eq_bind, Option.pure_def, Option.bind_some, Bool.false_eq_true, if_false, scanTail]
 
+/-- the text behind the two slices of the bucket scan against the canonical decision: split every `if` (of the text and of
+    the canonical form), the consistent leaves are `rfl`, the others contradictory by omega -/
+macro "tail_close" : tactic =>
+  `(tactic| ((repeat' split) <;> first | rfl | (exfalso; omega) | (simp_all; done)))
+
 /-- **the bucket scan** `for _, e := range s.bucket(h) { … }` (loop_2; the view `{arr := V, len := bsN}` is the
     sub-slice `bh.buckets[h·bucketSize : (h+1)·bucketSize]`) is `ProbeW.bupScanW` over the slots `idx, …, bsN-1`:
     same panic (`p[j+k-1]`, `p[i+k-1]` out of range), same `(o, k)` -/
@@ -353,7 +359,10 @@ theorem scan_eq (grow : Nat → Nat → Nat) (fuel : Nat) (lcp : Slice → Slice
     by_cases hv : v = e.val
     · have hv1 : ¬ (v ≠ e.val) := fun hc => hc hv
       have hv2 : ¬ (v.toNat ≠ e.val.toNat) := fun hc => hc (by rw [hv])
-      rw [if_neg hv1, if_neg hv2]
+      have hv1' : ¬ (e.val ≠ v) := fun hc => hc hv.symm
+      -- the value test of the Go text with the operands either way round, `!=` with `continue` or `==` with the arms swapped
+      first | rw [if_neg hv1] | rw [if_neg hv1'] | rw [if_pos hv] | rw [if_pos hv.symm]
+      rw [if_neg hv2]
       -- the window test of the Go text, whatever its spelling: split it, derive the model's test
       split
       case isFalse hgo =>
@@ -364,15 +373,22 @@ theorem scan_eq (grow : Nat → Nat → Nat) (fuel : Nat) (lcp : Slice → Slice
         generalize e.pos.toNat = j at hwin hw2 ⊢
         obtain ⟨hji, hjw⟩ := hwin
         -- the part behind the byte check (the same text in both arms of `if k > 0`)
-        have tail : (Res.bind (Slice.slice { arr := A, len := L } (Int.ofNat j) (Int.ofNat L)) fun t_4 =>
-              Res.bind (Slice.slice { arr := A, len := L } ia (Int.ofNat L)) fun t_5 =>
+        -- stated for ANY text `F t_4 t_5` behind the two slices that agrees with the canonical decision (`continue` with
+        -- `(o, k)` when `ke < k ∨ (ke = k ∧ oe ≥ o)`, else with `(oe, ke)`): the Go text may spell the test negated with
+        -- the assignment in the then-arm (a join tuple), with swapped operands, …; `tail_close` proves the agreement
+        have tail : ∀ F : Slice → Slice → Res (Int × Int),
+            (∀ t_4 t_5, F t_4 t_5 =
               if (lcp t_4 t_5 < (k : Int)) ∨ ((lcp t_4 t_5 = (k : Int)) ∧ (ia - Int.ofNat j ≥ (o : Int))) then
                 bucketParser_Parse_loop_2 grow fuel lcp { arr := V, len := bsN } v ia s { arr := A, len := L } n
                   ((idx + 1 : Nat) : Int) (o : Int) (k : Int)
               else
                 bucketParser_Parse_loop_2 grow fuel lcp { arr := V, len := bsN } v ia s { arr := A, len := L } n
-                  ((idx + 1 : Nat) : Int) (ia - Int.ofNat j) (lcp t_4 t_5)) =
+                  ((idx + 1 : Nat) : Int) (ia - Int.ofNat j) (lcp t_4 t_5)) →
+            (Res.bind (Slice.slice { arr := A, len := L } (Int.ofNat j) (Int.ofNat L)) fun t_4 =>
+              Res.bind (Slice.slice { arr := A, len := L } ia (Int.ofNat L)) fun t_5 => F t_4 t_5) =
             scanRes (scanTail bk (A.take L) iN s.BUPConfig.WindowSize.toNat v.toNat base (List.range' (idx + 1) n) o k j) := by
+          intro F hF
+          simp only [hF]
           unfold scanTail
           rw [slice_okI { arr := A, len := L } (Int.ofNat j) (Int.ofNat L) j L rfl rfl (by omega) hLA, bind_ok,
             slice_okI { arr := A, len := L } ia (Int.ofNat L) iN L hia rfl hi hLA, bind_ok]
@@ -410,7 +426,7 @@ theorem scan_eq (grow : Nat → Nat → Nat) (fuel : Nat) (lcp : Slice → Slice
               · have hd1 : ¬ (A.getD (j + k - 1) 0 ≠ A.getD (iN + k - 1) 0) := fun hc => hc hd
                 have hd2 : ¬ ((A.getD (j + k - 1) 0 != A.getD (iN + k - 1) 0) = true) := fun hc => (bne_iff_ne.mp hc) hd
                 rw [if_neg hd1, if_neg hd2]
-                exact tail
+                exact tail _ (fun t_4 t_5 => by tail_close)
               · have hd2 : (A.getD (j + k - 1) 0 != A.getD (iN + k - 1) 0) = true := bne_iff_ne.mpr hd
                 rw [if_pos hd, if_pos hd2]
                 exact hnext o k
@@ -437,14 +453,16 @@ theorem scan_eq (grow : Nat → Nat → Nat) (fuel : Nat) (lcp : Slice → Slice
               omega)]
             rfl
         · rw [if_neg (by omega : ¬ (k : Int) > 0), if_neg hk]
-          exact tail
+          exact tail _ (fun t_4 t_5 => by tail_close)
       case isTrue hgo =>
         simp only [Int.ofNat_eq_natCast, hia] at hgo
         have hwin : ¬ (e.pos.toNat < iN ∧ iN - e.pos.toNat ≤ s.BUPConfig.WindowSize.toNat) := by omega
         rw [if_pos hwin]
         exact hnext o k
     · have hv2 : v.toNat ≠ e.val.toNat := fun hc => hv (UInt32.toNat_inj.mp hc)
-      rw [if_pos hv, if_pos hv2]
+      have hv' : e.val ≠ v := fun hc => hv hc.symm
+      first | rw [if_pos hv] | rw [if_pos hv'] | rw [if_neg hv] | rw [if_neg (fun hc => hv' hc)]
+      rw [if_pos hv2]
       exact hnext o k
 
 end LZ.GenBUPParse
